@@ -583,7 +583,7 @@ impl Walker {
 					let mut sub = Reader::new();
 					let _ = sub.walk_generic(ch[1].raw, &p, 0);
 				}
-				attrs.push(json!({"oid": oid, "valuesRaw": hex(ch[1].raw), "raw": hex(a.raw), "isSet": is_set}));
+				attrs.push(json!({"oid": oid, "valuesRaw": hex(ch[1].raw), "rawb": bytes_json(a.raw), "isSet": is_set}));
 			}
 		}
 		Ok(json!({
